@@ -6,6 +6,12 @@ import Oracle.Util
      recs → kind=recs recs=<vid>{k=tv,…};… nsgrant=<vid>:<col>,…   (numeric strings whose OWN block holds a JSON number in that column)
      stats→ kind=stats rows=<k1\x1fk2>=<agg;agg>,…   (values exact rationals num/den)
      tc   → kind=tchart rows=<cell start>:<series>=<agg;agg>,… [rows2=…]   series: - (no by-field) | ~ (NULL series) | hex(key)
+   further answers: tail → kind=tail n=<n> order=… ots=… ; dedup → kind=dedup groups=<hexkey>@<ts>:<vid+vid>,… ;
+     top / rare → kind=top rare=<0|1> limit=<n|-> rows=<hexkey>=<count>,… total=<matched> withf=<matched events having the field>
+   filter stages (any number, before the answer stage): where:… | regex:<f>:<eq|ne>:<hexglob> (`| regex f="…"`, the glob written
+     as an anchored / unanchored regular expression, exact case) | win:<f>:<lit+lit> (`| where in(f, …)`) |
+     tm:<startSec>:<endSec> (`earliest=… latest=…` in the query text: the range of the request is replaced) | sql (the query is
+     sent through the SQL front end: same meaning, text literals in exact case or not as the front end likes)
    stages: stats / tc, their variants pstats / ptc (the same command behind `| eval verif_pp=1`, which makes the engine run
    it in the stats / timechart PROCESSOR instead of the search stage: same specification), where:<f>:<op>:<lit> (`| where`).
    Events that were sent but not flushed when the queries run are visible or not as the engine likes, consistently (`unfl=`).
@@ -27,6 +33,13 @@ def parseVal (s : String) : Option (Option Val) :=   -- some none = explicit nul
   | "s" => (if rest.isEmpty then some "" else hexStr? rest).map (fun t => some (Val.str t))
   | "b" => if rest == "1" then some (some (.bool true)) else if rest == "0" then some (some (.bool false)) else none
   | "z" => if rest.isEmpty then some none else none
+  | "r" =>   -- r<n>.<hexunit>: the unit repeated and cut to n bytes (long values without long op lines; ASCII units)
+    match rest.splitOn "." with
+    | [n, h] => match n.toNat?, hexStr? h with
+      | some n, some u => if u.isEmpty then none else
+          some (some (Val.str (((String.join (List.replicate (n / u.length + 1) u)).take n).toString)))
+      | _, _ => none
+    | _ => none
   | _ => none
 
 def parseFields (s : String) : Option (List (String × Val)) :=
@@ -80,6 +93,14 @@ inductive Stage where
   | pages (k : Nat)
   | tc (span : Nat) (aggs : List Agg) (by_ : Option String)
   | where_ (f : String) (op : Op) (l : Lit)
+  | regex (f : String) (op : Op) (glob : String)
+  | win (f : String) (ls : List Lit)
+  | tm (startSec endSec : Nat)
+  | sql
+  | head (n : Nat)
+  | tail (n : Nat)
+  | dedup (f : String)
+  | top (rare : Bool) (f : String) (limit : Option Nat)
 deriving Repr
 
 def parseAgg (s : String) : Option Agg :=
@@ -114,6 +135,21 @@ def parseStage (s : String) : Option Stage :=
     match parseOp op, parseLit l with
     | some op, some l => if f.isEmpty then none else some (Stage.where_ f op l)
     | _, _ => none
+  | ["regex", f, op, h] =>
+    match parseOp op, hexStr? h with
+    | some op, some g => if f.isEmpty || g.isEmpty || !(op == .eq || op == .ne) then none else some (Stage.regex f op g)
+    | _, _ => none
+  | ["win", f, ls] =>
+    match (ls.splitOn "+").mapM parseLit with
+    | some ls => if f.isEmpty then none else some (Stage.win f ls)
+    | none => none
+  | ["tm", a, b] => match a.toNat?, b.toNat? with | some a, some b => some (Stage.tm a b) | _, _ => none
+  | ["sql"] => some .sql
+  | ["head", n] => n.toNat?.map Stage.head
+  | ["tail", n] => n.toNat?.map Stage.tail
+  | ["dedup", f] => if f.isEmpty then none else some (Stage.dedup f)
+  | ["top", f, lim] => if f.isEmpty then none else if lim == "-" then some (Stage.top false f none) else lim.toNat?.map (fun n => Stage.top false f (some n))
+  | ["rare", f, lim] => if f.isEmpty then none else if lim == "-" then some (Stage.top true f none) else lim.toNat?.map (fun n => Stage.top true f (some n))
   | _ => none
 
 structure Query where
@@ -193,27 +229,53 @@ def hexOf (s : String) : String := bytesHex (s.toUTF8.toList.map (·.toNat))
 on the blocks); `unfl` = the events sent but not flushed when the queries run -/
 def answerB (blocks : List (List Event)) (q : Query) (unfl : List Event := []) : String :=
   let evs := blocks.flatten
+  -- filter stages in front of the answer stage
+  let isPre : Stage → Bool := fun st => match st with
+    | .where_ _ _ _ | .regex _ _ _ | .win _ _ | .tm _ _ | .sql => true | _ => false
+  let pre := q.stages.takeWhile isPre
+  let stages := q.stages.dropWhile isPre
+  let isSql := pre.any (fun st => match st with | .sql => true | _ => false)
+  -- `earliest=… latest=…` in the query text replaces the range of the request (whole seconds); whether an event exactly on
+  -- the `latest` instant belongs to the range is left to the engine
+  let tm : Option (Nat × Nat) := pre.findSome? (fun st => match st with | .tm a b => some (a * 1000, b * 1000) | _ => none)
+  let q : Query := match tm with | some (a, b) => { q with start := a, end_ := b } | none => q
   let inr := evs.filter (inRange q.start q.end_)
   -- a `where` stage: the statement (C02) demands that it agrees with the same comparison in the search clause ON NUMERIC
   -- FIELDS; a value or literal that is not a number (text order, case, booleans) and an event lacking the field are
   -- left to the engine
-  let (whereF, stages) : Option (String × Op × Lit) × List Stage := match q.stages with
-    | .where_ f op l :: r => (some (f, op, l), r)
-    | st => (none, st)
   -- (repaired, patch c02-8: the where stage compared a QUOTED number with the canonical text of the field's number, so
   -- `where x="2.50"` / "5.0" / "+5" / "05" / "1e0" matched nothing, not even the stored text "2.50"; the class label
   -- where-quoted-number-not-canonical is no longer emitted, a recurrence is reported without a class)
-  let evalW (e : Event) : Tri × Classes := match whereF with
-    | none => (.yes, [])
-    | some (f, op, l) =>
+  let evalPre (e : Event) (st : Stage) : Tri × Classes := match st with
+    | .where_ f op l =>
       match e.get f, l.num? with
-      | some v, some _ =>
-        if (v.aggNum?).isSome then ((evalCmp (some v) op l).1, []) else (.either, [])
+      | some v, some _ => if (v.aggNum?).isSome then ((evalCmp (some v) op l).1, []) else (.either, [])
       | _, _ => (.either, [])
+    | .regex f op g =>
+      -- `| regex f="…"`: the value matches the regular expression, exact case; only text values are judged
+      match e.get f with
+      | some (.str t) => let m := globChars g.toList t.toList; (Tri.ofBool (if op == .eq then m else !m), [])
+      | _ => (.either, [])
+    | .win f ls =>
+      -- `| where in(f, a, b, …)`: the field equals one of the values; judged on numbers only
+      match (e.get f).bind Val.aggNum?, ls.mapM Lit.num? with
+      | some x, some qs => (Tri.ofBool (qs.any (· == x)), [])
+      | _, _ => (.either, [])
+    | .tm _ b => (if e.ts == b * 1000 then .either else .yes, [])
+    | _ => (.yes, [])
+  let evalW (e : Event) : Tri × Classes :=
+    pre.foldl (fun (acc : Tri × Classes) st => let (t, c) := evalPre e st; (acc.1.and t, acc.2 ++ c)) (.yes, [])
+  -- the SQL front end: same meaning; a text literal that equals the value up to case is left to the front end
+  let sqlAdj (e : Event) (t : Tri) : Tri :=
+    if !isSql then t else match q.filter with
+      | .cmp f _ (.str p) => (match e.get f with
+        | some (.str v) => if lower p == lower v && p != v then Tri.either else t
+        | _ => t)
+      | _ => t
   let evalBoth (e : Event) : Tri × Classes :=
     let (a, c1) := evalFilter e q.filter
     let (b, c2) := evalW e
-    (a.and b, c1 ++ c2)
+    ((sqlAdj e a).and b, c1 ++ c2)
   let tri := inr.map (fun e => (e, evalBoth e))
   -- sent but not flushed: visible or not as the engine likes (never `must`)
   let unflMay := (unfl.filter (inRange q.start q.end_)).filter (fun e => (evalBoth e).1 != Tri.no)
@@ -235,6 +297,35 @@ def answerB (blocks : List (List Event)) (q : Query) (unfl : List Event := []) :
   | [] =>
     let ord := newestFirst (must ++ may)
     s!"kind=ids from={q.from_} size={q.size} order={joinNats (ord.map (·.vid))} ots={joinNats (ord.map (·.ts))} must={joinNats (must.map (·.vid))} may={joinNats (may.map (·.vid))} cls={",".intercalate cls}"
+  | [.head n] =>
+    -- `| head n`: the n newest matches (C05); ties on the cut may be cut anywhere — the same judgement as a size limit
+    let ord := newestFirst (must ++ may)
+    let size := if n < q.size then n else q.size
+    s!"kind=ids from={q.from_} size={size} order={joinNats (ord.map (·.vid))} ots={joinNats (ord.map (·.ts))} must={joinNats (must.map (·.vid))} may={joinNats (may.map (·.vid))} cls={",".intercalate cls}"
+  | [.tail n] =>
+    -- `| tail n`: the last n of the (newest first) stream, i.e. the n oldest matches, in reverse order (oldest first)
+    let ord := newestFirst must
+    s!"kind=tail n={n} order={joinNats (ord.map (·.vid))} ots={joinNats (ord.map (·.ts))} nmay={may.length}"
+  | [.dedup f] =>
+    -- `| dedup f`: of the events that have f, the first one of every value in stream order = the newest (among equal
+    -- timestamps: any); events lacking f are dropped
+    let ord := newestFirst must
+    let keyed := ord.filterMap (fun e => (e.get f).map (fun v => (v.keyText, e)))
+    let keys := (keyed.map (·.1)).eraseDups
+    let groups := keys.map (fun k =>
+      let es := (keyed.filter (·.1 == k)).map (·.2)
+      let top := match es with | e :: _ => e.ts | [] => 0
+      s!"{hexOf k}@{top}:{"+".intercalate ((es.filter (·.ts == top)).map (fun e => toString e.vid))}")
+    s!"kind=dedup groups={",".intercalate groups} nmay={may.length}"
+  | [.top rare f limit] =>
+    -- `| top f` / `| rare f`: the values of f with the number of matched events that hold them, most / least common first,
+    -- 10 rows unless a limit is given.  Recorded deviation (class top-limit-keeps-by-key-order, pinned by the engine's
+    -- tests): with a limit the engine orders the rows by the VALUES and keeps the last / first n of them, not the n most / least common
+    let keyed := must.filterMap (fun e => (e.get f).map Val.keyText)
+    let keys := keyed.eraseDups
+    let rows := keys.map (fun k => s!"{hexOf k}={(keyed.filter (· == k)).length}")
+    let tcls := match limit with | some _ => ["top-limit-keeps-by-key-order"] | none => []
+    s!"kind=top rare={if rare then 1 else 0} limit={match limit with | some n => toString n | none => "-"} rows={",".intercalate rows} total={must.length} withf={keyed.length} nmay={may.length} cls={",".intercalate (cls ++ tcls)}"
   | [.pages k] =>
     let ord := newestFirst must
     s!"kind=pages k={k} order={joinNats (ord.map (·.vid))} ots={joinNats (ord.map (·.ts))} nmay={may.length}"
@@ -246,7 +337,10 @@ def answerB (blocks : List (List Event)) (q : Query) (unfl : List Event := []) :
     let texty := cols.filter (fun c => evs.any (fun e => match e.get c with
       | some (.str t) => (numericText? t).isNone | some (.bool _) => true | _ => false))
     let grants := (numStrGrants blocks).map (fun (v, k) => s!"{v}:{k}")
-    s!"kind=recs from={q.from_} size={q.size} recs={";".intercalate recs} texty={",".intercalate texty} nsgrant={",".intercalate grants} may={joinNats (may.map (·.vid))} cls={",".intercalate cls}"
+    -- columns that hold a boolean and a value of another kind somewhere in the dataset: the boolean may come back as its text
+    let boolmix := cols.filter (fun c => evs.any (fun e => match e.get c with | some (.bool _) => true | _ => false) &&
+      evs.any (fun e => match e.get c with | some (.bool _) => false | some _ => true | none => false))
+    s!"kind=recs from={q.from_} size={q.size} recs={";".intercalate recs} texty={",".intercalate texty} boolmix={",".intercalate boolmix} nsgrant={",".intercalate grants} may={joinNats (may.map (·.vid))} cls={",".intercalate cls}"
   | [.stats aggs bys] =>
     let groups := if bys.isEmpty then [([], must)] else groupBy must bys
     let rows := groups.map (fun (k, es) =>
